@@ -17,6 +17,7 @@ mod c14;
 mod c20;
 mod c12;
 mod c10;
+mod c05;
 mod c18;
 
 use rng::Rng;
@@ -48,6 +49,7 @@ fn main() {
         "C01" => c01::cases(&mut rng, count, tier),
         "C02" | "C03" | "C19" => cworld::cases_simple(&mut rng, count, tier, prop),
         "C15" => cworld::cases_c15(&mut rng, count, tier),
+        "C05" => c05::cases(&mut rng, count, tier),
         "C07" => cbin::cases_c07(&mut rng, count, tier),
         "C08" => cbin::cases_c08(&mut rng, count, tier),
         "C16" => cworld::cases_c16(&mut rng, count, tier),
